@@ -8,15 +8,25 @@ for l in open('/verif/properties.jsonl'):
 d = "/tmp/seed_%s" % pid
 keep = {k: p[k] for k in ("id", "title", "statement", "quantifier", "why_tests_cant", "anchors")}
 json.dump(keep, open(d + "/PROPERTY.json", "w"), indent=1)
+avoid = ""
+if len(sys.argv) > 2 and sys.argv[2] == "--second":
+    import glob
+    prev = []
+    for mf in sorted(glob.glob("/verif/seeded/%s*/meta.json" % pid)):
+        prev.append(json.load(open(mf)).get("summary", ""))
+    if prev:
+        avoid = ("\n\nThe following change(s) have already been studied for this property; produce a DIFFERENT one, in a different "
+                 "function (preferably a different file or mechanism among the anchored ones), needing a different kind of input or "
+                 "history to manifest:\n" + "\n".join("- " + x for x in prev))
 print("""You are testing how robust a semantic property of the miasm reverse-engineering framework is against realistic regressions. You work ONLY inside the scratch git worktree {d} (a checkout of the repository; run python as /venv/bin/python with PYTHONPATH={d} so that `import miasm` resolves to the worktree). Do NOT read or use anything under /verif or /repo, and do not look for existing verification machinery: your work must be independent of it.
 
 The property is described in {d}/PROPERTY.json (statement, quantifier, anchored files/mechanisms). Read it and the anchored source files.
 
-Task: produce ONE realistic change to the repository source (a small edit a developer could plausibly make during a refactoring, optimisation or bug fix: changed comparison or bound, dropped mask, forgotten update of one of two mirrored tables, cursor advanced before reserving, hoisted local state, swapped order of two steps, an early return, a cache that is not invalidated...) that BREAKS the property while the code still imports/compiles and the repository's pinned test suite still passes. The change must need something specific to manifest — a particular multi-step sequence of operations, an unusual or boundary input, a particular configuration, or two cooperating sites that each look fine alone — not something ordinary use would expose at once. Do not add dead code, comments announcing the bug, or test-only switches; do not touch tests.
+Task: produce ONE realistic change to the repository source (a small edit a developer could plausibly make during a refactoring, optimisation or bug fix: changed comparison or bound, dropped mask, forgotten update of one of two mirrored tables, cursor advanced before reserving, hoisted local state, swapped order of two steps, an early return, a cache that is not invalidated...) that BREAKS the property while the code still imports/compiles and the repository's pinned test suite still passes. The change must need something specific to manifest — a particular multi-step sequence of operations, an unusual or boundary input, a particular configuration, or two cooperating sites that each look fine alone — not something ordinary use would expose at once. Do not add dead code, comments announcing the bug, or test-only switches; do not touch tests.{avoid}
 
 Deliverables (all inside {d}):
 1. `patch.diff` = `git diff` of your change (source files only; make sure `git apply` works on a clean checkout of HEAD).
 2. `demo.py` = a small standalone program (run as `cd {d} && PYTHONPATH={d} /venv/bin/python demo.py`) that exits 0 on the unmodified code and exits non-zero (with a short message showing the violated expectation) on the modified code. It must test the property as stated, with an oracle that does not depend on your knowledge of the change.
 3. `meta.json` = {{"property": "{pid}", "summary": one sentence, "needs_to_manifest": what specific sequence/input/configuration is required, "files_changed": [...]}}.
 
-Verify yourself before finishing: (a) with the change applied, the pinned suite still passes: `cd {d} && /venv/bin/python -m pytest -q -p no:cacheprovider --timeout=900 --continue-on-collection-errors 2>&1 | tail -1` must report `280 passed` (the hundreds of collection *errors* are normal and also present without the change); (b) demo.py exits non-zero with the change; (c) save the change with `git diff > patch.diff`, revert with `git checkout -- miasm` (do NOT use `git stash`: the stash is shared with other worktrees), demo.py exits 0, re-apply with `git apply patch.diff`. Leave the worktree with the change applied and the three files present. Reply with the summary, the diff, and the outputs of (a)-(c).""".format(d=d, pid=pid))
+Verify yourself before finishing: (a) with the change applied, the pinned suite still passes: `cd {d} && /venv/bin/python -m pytest -q -p no:cacheprovider --timeout=900 --continue-on-collection-errors 2>&1 | tail -1` must report `280 passed` (the hundreds of collection *errors* are normal and also present without the change); (b) demo.py exits non-zero with the change; (c) save the change with `git diff > patch.diff`, revert with `git checkout -- miasm` (do NOT use `git stash`: the stash is shared with other worktrees), demo.py exits 0, re-apply with `git apply patch.diff`. Leave the worktree with the change applied and the three files present. Reply with the summary, the diff, and the outputs of (a)-(c).""".format(d=d, pid=pid, avoid=avoid))
